@@ -156,7 +156,7 @@ def r08_2(run):
             if len(kws) == 1 and isinstance(kws[0].value, ast.Name):
                 ds = defs.get(kws[0].value.id, [])
                 ok2 = bool(ds) and all(d[0] == 'expr' and isinstance(d[1], ast.Call) and dotted(d[1].func) == 'self._create_flags'
-                                       and d[1].args and dotted(d[1].args[0]) == 'kw' for d in ds)
+                                       and d[1].args and dotted(d[1].args[0]) in names_defined_by(up, lambda v: isinstance(v, ast.Call) and (dotted(v.func) or '').endswith('find_keywords')) for d in ds)
             run.ob('R08.2', up, c, 'closed/failed/detach notifications carry **_create_flags(kw)', ok2, slot='kwargs:%s:%s' % (name, m if m in methods else const(c.args[0])),
                    message='%s notification does not pass the both-case flags: %s' % (name, src(c)[:70]))
         run.floor('R08.2', '%s closed/failed/detach notifications' % name, found, 2)
